@@ -691,3 +691,23 @@ var Table = Cello(Table,
   Instance(Show,     Table_Show, NULL),
   Instance(Resize,   Table_Resize));
 
+
+#ifdef CELLO_VERIF
+
+/* Read-only accessors for the verification harness (/verif). No behaviour change. */
+
+size_t Cello_Verif_Table_Slots(var self) {
+  struct Table* t = self;
+  return t->nslots;
+}
+
+bool Cello_Verif_Table_Slot(var self, size_t i, uint64_t* home, var* key, var* val) {
+  struct Table* t = self;
+  if (i >= t->nslots) { return false; }
+  *home = Table_Key_Hash(t, i);
+  *key = Table_Key(t, i);
+  *val = Table_Val(t, i);
+  return true;
+}
+
+#endif
